@@ -173,11 +173,13 @@ func (c *compressor) compressZstd(uncompressed []byte) (compressed []byte, err e
 // decompressZstd decompress the given data using the zstd algorithm
 func (c *compressor) decompressZstd(compressed []byte) (decompressed []byte, err error) {
 
-	r := bytes.NewReader(compressed)
-	zstdDecoder, err := zstd.NewReader(r)
+	// DecodeAll does not use a stream; a decoder created over a reader starts a background stream decoder
+	// that competes with DecodeAll for the block decoders (DecodeAll could block forever) and is never stopped.
+	zstdDecoder, err := zstd.NewReader(nil)
 	if err != nil {
 		return nil, err
 	}
+	defer zstdDecoder.Close()
 
 	decompressed, err = zstdDecoder.DecodeAll(compressed, nil)
 	return decompressed, err
